@@ -289,6 +289,40 @@ def k5_run(carve):
     return _enum_outcome("a cast of a literal operand gives the value of the cast of a column holding that value, and Polars and SQLite agree on the values (6 source types x 7 targets x 3 values)", n, bad)
 
 
+def k6_run(carve):
+    """the static type of x.cast(T) is T (its concrete representative for the generic Int / Float): a cast is never dropped or
+    replaced by another target, for column, expression and literal operands"""
+    import polars as pl
+
+    from .c13 import _enum_outcome
+
+    pdt = H.pdt
+    t = pdt.Table(pl.DataFrame({"i": [1, 2], "f": [1.5, 2.5], "s": ["1", "2"], "b": [True, False], "i8": pl.Series([1, 2], dtype=pl.Int8), "f32": pl.Series([1.5, 2.5], dtype=pl.Float32)}), name="t")
+    operands = {"Int64 column": lambda: t.i, "Int8 column": lambda: t.i8, "Float64 column": lambda: t.f, "Float32 column": lambda: t.f32, "String column": lambda: t.s, "Bool column": lambda: t.b,
+                "Int expression": lambda: t.i + 1, "Float expression": lambda: t.f * 2, "C.i": lambda: pdt.C.i, "int literal": lambda: pdt.lit(3), "float literal": lambda: pdt.lit(2.5)}
+    targets = [pdt.Int64(), pdt.Int32(), pdt.Int8(), pdt.Float64(), pdt.Float32(), pdt.String(), pdt.Int(), pdt.Float(), pdt.Bool()]
+    n, bad = 0, []
+    for oname, mk in operands.items():
+        for tgt in targets:
+            try:
+                e = mk().cast(tgt)
+                tbl = t >> pdt.mutate(r=e)
+            except (pdt.errors.DataTypeError, TypeError):
+                continue
+            n += 1
+            got = T.without_const(tbl.r.dtype())
+            fam_ok = TU.family(got) == TU.family(tgt)
+            exact_ok = (type(tgt) in (pdt.Int, pdt.Float)) or (got == tgt and type(got) is type(tgt))
+            if not (fam_ok and exact_ok):
+                bad.append(f"({oname}).cast({tgt}) has static type {got}")
+                continue
+            out = tbl >> pdt.export(pdt.Polars())
+            gp = H.Dtype.from_polars(out["r"].dtype)
+            if TU.family(gp) != TU.family(tgt) or (type(tgt) not in (pdt.Int, pdt.Float) and gp != tgt):
+                bad.append(f"({oname}).cast({tgt}) is exported by Polars as {gp}")
+    return _enum_outcome("x.cast(T) has static and exported type T for every accepted operand / target pair (generic Int / Float: a type of that family)", n, bad)
+
+
 def obligations(tier):
     fi = H.fn_info
     cfns = [fi(Cast.__init__), fi(Cast.is_valid_cast), fi(Cast.dtype), fi(T.converts_to)]
@@ -301,6 +335,8 @@ def obligations(tier):
     ]
     obs.append(Obligation("C17/K5/literal_operands", "K5", "casts of literal (const) operands agree with casts of columns, natively on both backends", k5_run,
                           functions=cfns + [fi(H.sqlite_backend.SqliteImpl.compile_cast), fi(H.polars_backend.compile_col_expr), fi(H.sql_backend.SqlImpl.compile_lit)], bounded="6 source types x 7 targets x 3 sample values x 2 backends, plus 10 nested cast chains (native execution)"))
+    obs.append(Obligation("C17/K6/result_type", "K6", "x.cast(T) has type T (no cast is dropped), for columns, expressions, C-references and literals", k6_run, functions=cfns + [fi(H.col_expr_mod.ColExpr.cast)],
+                          bounded="11 operand shapes x 9 targets (concrete and generic) on one table; native Polars export"))
     targets = [Int64(), H.pdt.Int32(), Float64(), Float32(), String(), Date(), Datetime(), Enum("a", "b")]
     for s in K4_SOURCES:
         for t in targets:
